@@ -17,6 +17,7 @@ from .core import RaiseSig, Unsupported, fresh_name
 from .interp import CLASS_MODELS, METHODS, EngineCallable, Frame, method, model
 from .values import (
     SV,
+    AbsObj,
     Arr,
     BoundMethod,
     DynV,
@@ -261,6 +262,10 @@ def class_of(I, v):
 
     if isinstance(v, Obj):
         return v.cls
+    if isinstance(v, AbsObj):
+        if v.cls is None:
+            raise Unsupported(f"class of abstract object {v.tag}")
+        return v.cls
     if isinstance(v, SV):
         return {"int": int, "bool": bool, "npbool": np.bool_, "real": float, "str": str, "uid": _uuid.UUID, "bytes": bytes}[v.k]
     if isinstance(v, (PList, SList)):
@@ -344,6 +349,8 @@ def m_hasattr(I, args, kw):
         if name in obj.fields:
             return True
         return inspect.isclass(obj.cls) and any(name in k.__dict__ for k in obj.cls.__mro__)
+    if isinstance(obj, AbsObj):
+        return name in obj.attrs or name in obj.methods
     if isinstance(obj, (SV, DynV, PList, PDict, SList, SDict)):
         return hasattr(class_of(I, obj) if not isinstance(obj, DynV) else object, name)
     if isinstance(obj, Arr):
@@ -817,6 +824,18 @@ def sl_append(I, self, x):
     old, n = self.elem, to_z3(self.length, "int")
     self.elem = lambda i, _o=old, _n=n, _x=x: ite_value(to_z3(i, "int") == _n, _x, lambda: _o(i))
     self.length = mk(n + 1, "int")
+
+
+@method(SList, "pop")
+def sl_pop(I, self, *args):
+    if args:
+        raise Unsupported("SList.pop(i)")
+    n = to_z3(self.length, "int")
+    if not I.path.branch(n > 0, f"pop-nonempty@{I.cur_line}"):
+        I.raise_(IndexError)
+    v = self.elem(n - 1)
+    self.length = mk(n - 1, "int")
+    return v
 
 
 @method(PDict, "get")
